@@ -27,8 +27,10 @@ def main():
     for a in sys.argv[3:]:
         if a.startswith("--props"):
             props = sys.argv[sys.argv.index(a) + 1].split(",")
-    src = Path(f"/tmp/seed_out/{pid}")
-    wt = f"/tmp/seed/{pid}"
+    rnd = sys.argv[sys.argv.index("--round") + 1] if "--round" in sys.argv else "1"
+    sfx = "" if rnd == "1" else rnd
+    src = Path(f"/tmp/seed{sfx}_out/{pid}")
+    wt = f"/tmp/seed{sfx}/{pid}"
     patch, demo = src / f"patch{i}.diff", src / f"demo{i}.py"
     meta = json.loads((src / f"meta{i}.json").read_text()) if (src / f"meta{i}.json").exists() else {}
     env = dict(__import__("os").environ, PYTHONPATH=wt)
@@ -43,7 +45,7 @@ def main():
     rc1, demo_out = sh(["/venv/bin/python", str(demo)], cwd=wt, env=env, timeout=600)
     sh(["git", "-C", wt, "checkout", "-q", "--", "."])
     confirmed = rc0 == 0 and rc1 == 1 and re.search(r"\b148 passed", tests_line) is not None and "failed" not in tests_line
-    print(f"{pid}-{i}: demo without={rc0} with={rc1}; tests: {tests_line}; confirmed={confirmed}")
+    print(f"{pid}-r{rnd}-{i}: demo without={rc0} with={rc1}; tests: {tests_line}; confirmed={confirmed}")
     manifest = json.loads((VERIF / "MANIFEST.json").read_text())
     claimed = [c["property_id"] for c in manifest["checks"]]
     if props == "all":
@@ -78,7 +80,7 @@ def main():
     _, st = sh(["git", "-C", "/repo", "status", "--short"])
     if st.strip():
         print("WARNING /repo not clean:", st)
-    dest = VERIF / "seeded" / f"{pid}-{i}"
+    dest = VERIF / "seeded" / (f"{pid}-{i}" if rnd == "1" else f"{pid}-r{rnd}-{i}")
     if confirmed:
         dest.mkdir(parents=True, exist_ok=True)
         shutil.copy(patch, dest / "patch.diff")
